@@ -212,7 +212,11 @@ func RunOptim(c *core.Ctx) {
 				}
 				return f(x)
 			}
-			args := []interface{}{lineSearch.Parameters{Alpha1: 1, MaxEval: K}}
+			// the first trial step is an option value: "all optional-argument
+			// values" includes the hostile ones
+			alpha1 := []float64{1, 1, 1, 0.5, 4, 1e308, math.Inf(1), math.NaN(), -1, 0}[t.Choose(10)]
+			c.Logf("lineSearch Alpha1 = %v", alpha1)
+			args := []interface{}{lineSearch.Parameters{Alpha1: alpha1, MaxEval: K}}
 			if cons != 0 {
 				args = append(args, lineSearch.Constraints{Value: func(a ad.ConstScalar) bool {
 					ncons++
